@@ -281,13 +281,10 @@ func moreLastTokenF(f *FA, fn *ssa.Function, p *ssa.BasicBlock, iff *ssa.If, tak
 		if inner != nil {
 			if hif, ok := inner.header.Instrs[len(inner.header.Instrs)-1].(*ssa.If); ok {
 				if hc, ok := hif.Cond.(*ssa.BinOp); ok && hc.Op == token.LSS {
-					if lc, ok := hc.Y.(*ssa.Call); ok {
-						if bi, ok := lc.Call.Value.(*ssa.Builtin); ok && bi.Name() == "len" {
-							// the index tested is the loop's own counter
-							if ph, ok := add.X.(*ssa.Phi); ok && ph.Block() == inner.header || add.X == hc.X {
-								same = f.LFOf(cond.Y).key() == f.LFOf(hc.Y).key()
-							}
-						}
+					// the index tested is the loop's own counter, the bound is the loop's own bound (the length of
+					// the list, or the element count computed separately and used for both tests)
+					if ph, ok := add.X.(*ssa.Phi); ok && ph.Block() == inner.header && (hc.X == ssa.Value(ph) || f.LFOf(hc.X).key() == f.LFOf(ph).add(konst(1), 1).key()) || add.X == hc.X {
+						same = f.LFOf(cond.Y).key() == f.LFOf(hc.Y).key()
 					}
 				}
 			}
